@@ -31,7 +31,7 @@ REQUIRED_THEOREMS = ['octet_lang', 'ipv4_lang', 'ipv4_sound', 'prefix_ipv4_unsou
                      'ipv6_sound', 'ipv6_complete', 'drop_zeros_group_value', 'hashtag_lang',
                      'hashtag_reported_span', 'mention_lang', 'mention_unique', 'mention_reported_span',
                      'real_tagchars_are_word', 'email_lang', 'url_reported_valid', 'url_grammar_recognised',
-                     'url_family_size', 'phone_post_span', 'phone_kept_prefix', 'phone_extract_spec', 'match_inside_text']
+                     'url_family_size', 'phone_post_span', 'phone_kept_prefix', 'phone_extract_spec', 'ends_inside_text']
 RULE = ('regex correspondence: per translated pattern, strings sampled from the pattern, mutated, embedded in contexts '
         'built from the pattern\'s own class boundaries; unit: drop_leading_zeros / extractors / score_guid on IP- and '
         'GUID-shaped strings with ellipsis boundary contexts; pipeline: boundary octets {0,9,10,99,100,199,200,249,250,255}^4 '
